@@ -18,6 +18,7 @@ class Facts:
             kadts = inline.load_known_adts()
             steps = [('restore_renames', lambda x: inline.restore_renames(x, known), 'renamed'),
                      ('restore_adt_names', lambda x: inline.restore_adt_names(x, kadts), 'renamed'),
+                     ('summarise_tail_returns', lambda x: inline.summarise_tail_returns(x, known), 'renamed'),
                      ('inline_new_helpers', lambda x: inline.inline_new_helpers(x, known), 'inlined'),
                      ('normalise_mem_ops', inline.normalise_mem_ops, 'renamed'),
                      ('dissolve_caches', lambda x: __import__('caches').dissolve_caches(x, kadts), 'renamed'),
